@@ -34,6 +34,7 @@ Record case := Case {
   ctol : Z;
   cjit : Z;
   cgap : Z;            (* injected truncate -> write delay of the heartbeats (slow storage), else 0 *)
+  cslow : list (nat * Z); (* processes whose unlink calls are delayed (injected), with the delay *)
   cobs : list ob
 }.
 
@@ -48,8 +49,9 @@ Definition get_ev : dec ev := t <- get_z ;; k <- get_z ;; a <- get_z ;; b <- get
 Definition get_ob : dec ob := t <- get_z ;; o <- get_z ;; x <- get_z ;; ret (Ob t o x).
 Definition get_case : dec case :=
   i <- get_init ;; es <- get_list get_ev ;; h <- get_z ;; tol <- get_z ;; j <- get_z ;; g <- get_z ;;
+  sl <- get_list (p <- get_nat ;; d <- get_z ;; ret (p, d)) ;;
   os <- get_list get_ob ;;
-  ret (Case i es h tol j g os).
+  ret (Case i es h tol j g sl os).
 
 Definition sevent_of (e : ev) : sevent :=
   let a := Z.to_nat (ea e) in
@@ -71,7 +73,7 @@ Definition script_of (j : Z) (es : list ev) : list (Z * sevent) :=
 
 Definition model_outlog (c : case) (j : Z) : list (tid * Z * Z) :=
   outlog (simulate (cfg_repo_eps (if suspends (cevents c) then no_bound else sim_delta) (cgap c)) 4000 (chorizon c)
-                   (Sim (init_state (cinit c) (-1)) (script_of j (cevents c)) [] [] [] [])).
+                   (Sim (init_state (cinit c) (-1)) (script_of j (cevents c)) [] [] [] [] (cslow c) [])).
 
 Definition find_out (lg : list (tid * Z * Z)) (t : Z) : option (Z * Z) :=
   match find (fun x => Z.of_nat (fst (fst x)) =? t) lg with
@@ -260,7 +262,7 @@ Fixpoint sys_trace_of (c : config) (p : pid) (s : state) (ls : list label) : lis
 Definition model_syscalls (c : case) (p : pid) : list Z :=
   let cfg := cfg_repo_eps (if suspends (cevents c) then no_bound else sim_delta) (cgap c) in
   let s0 := init_state (cinit c) (-1) in
-  let m := simulate cfg 4000 (chorizon c) (Sim s0 (script_of 0 (cevents c)) [] [] [] []) in
+  let m := simulate cfg 4000 (chorizon c) (Sim s0 (script_of 0 (cevents c)) [] [] [] [] (cslow c) []) in
   sys_trace_of cfg p s0 (rev (trace m)).
 Fixpoint zl_eqb (a b : list Z) : bool :=
   match a, b with
